@@ -127,6 +127,92 @@ pub fn run(ctx: &Ctx) -> Report {
     });
     rep.merge(r);
 
+    // ---- (a'') the backend's callback returns its own error after part of the reply has gone out (rows,
+    //      then `?`): the connection ends, but every packet the server still sends in that exchange -
+    //      what the writers' destructors add, and anything the library itself may add - continues the
+    //      ids of the reply it belongs to
+    let n = if ctx.miri { 2 } else { ctx.n(512, 6000) };
+    let r = par_cases(ctx, "C05", "backend-gives-up-in-mid-reply", n, |rng, i, rep| {
+        let id = (i % 256) as u8;
+        let cols = vec![simple_col("a", ColumnType::MYSQL_TYPE_LONG), simple_col("b", ColumnType::MYSQL_TYPE_LONG)];
+        let nrows = (i / 256) % 4;
+        let mut ops = Vec::new();
+        let site = rng.below(5);
+        match site {
+            // nothing written yet
+            0 => {}
+            // header and rows, the row writer still held
+            1 | 2 => {
+                ops.push(QOp::Start(0));
+                for k in 0..nrows {
+                    ops.push(QOp::Row(vec![Cell::val(V::I32(k as i32)), Cell::val(V::I32(7))], RowForm::Owned));
+                }
+                if site == 2 {
+                    ops.push(QOp::Col(Cell::val(V::I32(1))));
+                }
+            }
+            // a finished first set, then the error
+            3 => {
+                ops.push(QOp::Start(0));
+                ops.push(QOp::Row(vec![Cell::val(V::I32(1)), Cell::val(V::I32(2))], RowForm::Owned));
+                ops.push(QOp::FinishOne);
+            }
+            _ => ops.push(QOp::CompleteOne(3, 4)),
+        }
+        ops.push(QOp::Bail(1000 + i));
+        let prog = QProg { colsets: vec![cols.clone()], ops, on_err: OnErr::Drop };
+        let bin = rng.bool();
+        let cmds = vec![Cmd::prepare(b"p").seq(id.wrapping_add(9)), Cmd::ping().seq(id.wrapping_mul(3)), if bin { Cmd::execute_plain(5, &[], false).seq(id) } else { Cmd::query(b"q").seq(id) }];
+        let scripts = vec![Script::PrepOk { id: 5, params: vec![], cols: cols.clone() }, Script::Q(prog)];
+        let mut case = Case::new(cmds, scripts);
+        if rng.bool() {
+            case.write_limit = *rng.pick(&[1usize, 7, 100, 4096]);
+        }
+        let obs = run_case(&case);
+        rep.evaluations += 1;
+        rep.counters.class(format!("backend gives up: {}, request id {}", ["before any reply", "after header and rows", "in mid-row", "after a finished set", "after a completion"][site as usize], match id { 0 => "0", 255 => "255", 254 => "254", _ => "other" }));
+        let d = || J::obj().set("request_id", id).set("protocol", if bin { "binary" } else { "text" }).set("gives_up", ["before any reply", "after header and rows", "in mid-row", "after a finished set", "after a completion"][site as usize]).set("rows_before", nrows).set("outcome", obs.outcome.describe());
+        if harness_panic(&obs, rep) {
+            return;
+        }
+        if let Outcome::Panic { file, line, msg } = &obs.outcome {
+            rep.violations.push(viol("C05", format!("C05 {}", panic_signature(file, *line, msg)), format!("run_on panicked while the backend gave up: {}", obs.outcome.describe()), d()));
+            return;
+        }
+        let out = obs.output();
+        let (pkts, used) = wire::packets_prefix(&out);
+        if used != out.len() {
+            rep.counters.inc("skipped_bad_framing");
+            return;
+        }
+        // greeting (id 0), auth reply, PREPARE reply (decoded to know where it ends), PING reply, then the
+        // exchange in question: every packet from there on
+        let (msgs, _) = wire::messages_prefix(&out, &pkts);
+        let dec = wire::decode_all(&obs.kinds, &msgs);
+        if dec.spans.len() < 4 {
+            rep.counters.inc("skipped_nonconformant");
+            return;
+        }
+        let first_msg = dec.spans[3].1;
+        let first_pkt = match msgs.get(first_msg) {
+            Some(m) => m.first,
+            None => {
+                rep.counters.inc("gave_up_without_a_packet");
+                return;
+            }
+        };
+        for (k, p) in pkts[first_pkt..].iter().enumerate() {
+            rep.counters.inc("outbound_packets_checked");
+            let want = id.wrapping_add(1 + k as u8);
+            if p.seq != want {
+                rep.violations.push(viol("C05", "C05 wrong-sequence-id".into(), format!("packet #{} of the reply to the request with id {} carries id {}, expected {} (the backend's callback returned its own error {})", k, id, p.seq, want, ["before any reply", "after header and rows", "in mid-row", "after a finished set", "after a completion"][site as usize]), d()));
+                return;
+            }
+        }
+        rep.counters.inc("abandoned_replies_whose_ids_were_checked");
+    });
+    rep.merge(r);
+
     // ---- (b) long responses: the counter must wrap (at least twice) without stalling or repeating
     let n = if ctx.miri { 1 } else { ctx.n(24, 200) };
     let r = par_cases(ctx, "C05", "long", n, |rng, i, rep| {
@@ -321,7 +407,7 @@ pub fn run(ctx: &Ctx) -> Report {
             let r = par_cases(ctx, "C05", "tls-handshake-ids", pairs.len() as u64, |rng, i, rep| {
                 let seqs = pairs[i as usize];
                 let id = rng.below(256) as u8;
-                let c = super::c18::TlsCase { tls13: rng.bool(), with_cert: false, server_mode: 0, user: b"u".to_vec(), cmds: vec![Cmd::ping().seq(id), Cmd::quit()], scripts: vec![], first_cut: 0, cycle: vec![], write_limit: usize::MAX, close_notify: true, raw_limit: None, hs_variant: 0, app_override: None, seqs, auth_reject: None, record_per_command: false, write_fault: None, buffer_writes: rng.bool() };
+                let c = super::c18::TlsCase { tls13: rng.bool(), with_cert: false, server_mode: 0, user: b"u".to_vec(), cmds: vec![Cmd::ping().seq(id), Cmd::quit()], scripts: vec![], first_cut: 0, cycle: vec![], write_limit: usize::MAX, close_notify: true, raw_limit: None, hs_variant: 0, app_override: None, seqs, auth_reject: None, record_per_command: false, write_fault: None, buffer_writes: rng.bool(), eager_close: false };
                 let o = match super::c18::run_tls(mref, &c) {
                     Ok(o) => o,
                     Err(e) => {
